@@ -36,8 +36,14 @@ func (p c19) NumCases(tier string) int {
 func (c19) MinNontrivial(tier string) int { return tierN(tier, 2000, 20000) }
 
 var dummyField = func() *component_definition.Field {
-	type h struct{ F string }
+	type h struct {
+		F string `value:"x"`
+	}
 	m := component_definition.NewMeta(&h{})
+	if len(m.Fields) == 0 {
+		// (must not happen; checks that need the field report it instead of the process dying at start-up)
+		return nil
+	}
 	return m.Fields[0]
 }()
 
